@@ -22,6 +22,7 @@ import (
 type c16CKKS struct {
 	params   ckks.Parameters
 	enc      *ckks.Encoder
+	lambda   int
 	prec     uint
 	logSlots int
 	logBound uint
@@ -109,6 +110,7 @@ func c16RunCKKS(ctx *core.RunCtx) {
 		ctx.Count("probe.security-parameter-at-level-boundary", 1)
 	}
 	var ok bool
+	sc.lambda = lambda
 	sc.minLevel, sc.logBound, ok = mpckks.GetMinimumLevelForRefresh(lambda, ct.Scale, d.n, cp.Q())
 	if ok && sc.minLevel <= params.MaxLevelQ() {
 		// contract of the minimum level: the sum of n masks below 2^logBound fits below Q at that level
@@ -664,6 +666,20 @@ func (sc *c16CKKS) runRefresh(d *c16Deploy, ct *rlwe.Ciphertext, m []*bignum.Com
 	if tol > 0.25 {
 		ctx.Count("probe.exactness-budget-skipped", 1)
 		return true
+	}
+	// The masked plaintext x - sum(M_i) is taken as an integer (centred modulo Q at the decryption level): it is the
+	// intended one unless it wraps, i.e. unless |x| + n*2^(logBound-1) reaches Q/2. The minimum level guarantees
+	// n*2^logBound <= Q and leaves the message to the statistical parameter: a coefficient wraps with probability
+	// about 2^-lambda. The message is asserted when the modulus leaves room for it deterministically, or when lambda
+	// makes a wrap a 2^-40 event over all coefficients; otherwise only the other oracles apply to the run.
+	{
+		need := new(big.Int).Lsh(big.NewInt(int64(d.n)), sc.logBound)
+		sc4, _ := new(big.Float).Mul(&ct.Scale.Value, big.NewFloat(4)).Int(nil)
+		need.Add(need, sc4)
+		if need.Cmp(params.RingQ().ModulusAtLevel[e2sLevel]) >= 0 && sc.lambda < 40+params.LogN()+1 {
+			ctx.Count("probe.masks-may-wrap(statistical correctness only)", 1)
+			return true
+		}
 	}
 	// the output can only represent the message if scale * |message| stays below half of its modulus:
 	// coefficients of the encoded message are bounded by scale * sqrt(2) * (a small factor for the drawn
